@@ -40,6 +40,16 @@ def exists_call_with(ctx, fd, o, callee, argi, need, targ=None, need_targ=None, 
                       ", ".join(i.line() for i in sites)), loc=sites[0].line())
 
 
+def _schedule_literal_field(fd, name):
+    """(instr, operand) of field `name` in the Schedule struct literals that reach the result"""
+    out = []
+    for d in fd.ret_slice()["defs"]:
+        i = d.instr
+        if i is not None and i.kind == "assign" and i.rv_kind() == "agg" and i.rv.get("adt") == SCHEDULE and name in (i.rv.get("fields") or []):
+            out.append((i, i.ops[i.rv["fields"].index(name)]))
+    return out
+
+
 def violation_of_argument(ctx, rid):
     """set_next_day_transitions: cached violation = sum of Transition::maintenance_violation over the transitions handed in"""
     from .. import shape as _sh
@@ -49,11 +59,12 @@ def violation_of_argument(ctx, rid):
         return
     stores = [d for d in fd.ret_slice()["defs"] if d.kind == "assign" and d.info.get("wfield") == ("maintenance_violation",) and d.instr is not None
               and d.instr.ops]
-    if len(stores) != 1:
-        ctx.undecided(o, "%d stores of maintenance_violation" % len(stores))
+    lit = _schedule_literal_field(fd, "maintenance_violation")
+    if len(stores) + len(lit) != 1:
+        ctx.undecided(o, "%d stores of maintenance_violation" % (len(stores) + len(lit)))
         return
-    ins = stores[0].instr
-    e = _sh.normalise(_sh.expr(fd, ins.ops[0]))
+    ins, vop = (stores[0].instr, stores[0].instr.ops[0]) if stores else lit[0]
+    e = _sh.normalise(_sh.expr(fd, vop))
     calls, fields, params = _sh.calls_of(e), _sh.fields_of(e), _sh.params_of(e)
     inner = set()
     for c in calls:
@@ -230,6 +241,9 @@ def rules(ctx):
                 sl = fd.slice(seed_locals=d.uses)
                 if "param:2" in sl["atoms"]:
                     ok = True
+        for op_ in _schedule_literal_field(fd, "next_period_transitions"):     # struct literal `Schedule { next_period_transitions: x, ..copy }`
+            if "param:2" in fd.slice_operand_pure(op_[0], op_[1])["atoms"]:
+                ok = True
         merged = None
         if ok:
             from .. import shape as _sh
